@@ -40,7 +40,7 @@ theorem runA_inv (A : Abs) (l : List Byte) (h : Inv A) : Inv (runA A l) := by
   | cons c l ih => rw [runA_cons]; exact ih _ (stepA_inv A c h)
 
 /-- the FORMER side condition at one position: the logical line is short (the bytes to come play no part).
-Since a line that does not fit the stash is passed over as a whole (`skip`), `feed_spec` no longer asks for it;
+Since the stash grows with the line, `feed_spec` no longer asks for it;
 kept for the former hypothesis set `Tidy` of Props/C10. -/
 def okAt (s : Sc) (_rest : List Byte) : Bool := decide (s.raw < 1000)
 
